@@ -453,6 +453,9 @@ var (
 	optSDDevice = []any{m{"capabilities": l{"gpu"}}, m{"capabilities": l{"gpu"}, "count": 2}, m{"count": "all"}, m{"device_ids": l{"0"}}, m{"device_ids": l{"0"}, "count": 1}, m{"count": nil}, m{"device_ids": nil}, m{}, "all", nil, 7, l{}}
 )
 
+// service keys of the random SetDefaultValues documents (user defined: extension-like, dotted, upper case)
+var c11SDNames = []string{"b", "b", "x-ray", "x-", "x.y", "X-b"}
+
 func c11SDService(r *rand.Rand, full bool) map[string]any {
 	s := m{"image": "i"}
 	list := func(opts []any) []any {
@@ -487,6 +490,9 @@ func c11SDService(r *rand.Rand, full bool) map[string]any {
 func c11SetDefaultsExhaustive(ctx *core.Ctx) {
 	add := func(kind string, svc map[string]any) {
 		c11Add(ctx, "c11.setDefaults", kind, m{"services": m{"a": svc, "b": m{"image": "j"}}}, nil)
+		// the same attributes under user-defined keys that look like extensions (`x-…`), at the service level and
+		// one level up: only the path decides (services.* matches `x-ray`; `x-services` is not `services`)
+		c11Add(ctx, "c11.setDefaults", kind+":x-key", m{"services": m{"x-ray": svc, "x-": core.DeepCopyVal(svc)}, "x-services": m{"a": core.DeepCopyVal(svc)}}, nil)
 	}
 	for _, b := range optSDBuild {
 		s := m{"image": "i"}
@@ -627,7 +633,13 @@ func runC11(ctx *core.Ctx) {
 		c11Add(ctx, "c11.normalize", kind, c11RandomDoc(ctx.Rng, malformed), c11Envs[ctx.Rng.Intn(len(c11Envs))])
 	}
 	for i := 0; i < ctx.Pick(6000, 150000); i++ {
-		d := m{"services": m{"a": c11SDService(ctx.Rng, i%2 == 0), "b": c11SDService(ctx.Rng, false)}}
+		d := m{"services": m{"a": c11SDService(ctx.Rng, i%2 == 0), c11SDNames[ctx.Rng.Intn(len(c11SDNames))]: c11SDService(ctx.Rng, false)}}
+		if ctx.Rng.Intn(4) == 0 {
+			// extension-like keys below a service: the walker descends through them like through any other key
+			d["services"].(map[string]any)["a"].(map[string]any)["x-deploy"] = m{"ports": l{m{"target": 1}}}
+			d["x-top"] = m{"services": m{"a": c11SDService(ctx.Rng, true)}}
+			ctx.Count("sd-random:x-keys-below")
+		}
 		kind := "sd-random-valid"
 		if i%6 == 5 {
 			// one malformed entry somewhere (a single error site, so that the reported class does not depend on map order)
@@ -687,4 +699,10 @@ func runC11(ctx *core.Ctx) {
 
 	// direct oracle on whole loads
 	c11Oracle(ctx)
+
+	// the project name from several sources at once × every default that embeds it (c11_names.go)
+	c11NamesOracle(ctx)
+
+	// the defaulting glue of load / loadYamlModel inside the composed model (c11_loadtail.go)
+	c11LoadTailStream(ctx)
 }
